@@ -85,21 +85,6 @@ expiration: the situation in which the sweep at `t` removes it early. -/
 def staleBefore (s : State) (t : Nat) (r : Attribute) : Bool :=
   s.queue.any (fun q => decide (q.2 = r.key) && decide (q.1 < t) && decide (r.exp ≠ some q.1))
 
-/-- Messages after which no stale queue entry can exist (given none before): an `add` of a
-key that is not stored, an `update` whose new value is not already stored (or equals the
-original value), a name deletion when no attribute under the name carries an expiration.
-Everything else (including every deletion by the owner, expiration updates, sweeps) is benign. -/
-def benign (s : State) : Op → Bool
-  | .add _ a => !hasKey s a.key
-  | .update _ addr name ov _ nv _ => !hasKey s (addr, name, nv) || decide (nv = ov)
-  | .deleteName _ name => s.recs.all (fun r => !decide (r.name = name) || r.exp.isNone)
-  | _ => true
-
-/-- Every message of the history is benign in the state in which it is executed. -/
-def benignRun : State → List Op → Bool
-  | _, [] => true
-  | s, op :: t => benign s op && benignRun (apply s op) t
-
 /-- Messages that never store over an existing record: an `add` of a key that is not stored,
 an `update` whose new value is not already stored (or equals the original value). -/
 def noOverwrite (s : State) : Op → Bool
